@@ -226,7 +226,17 @@ static void build_state(void)
             SV[k] = NULL;
         svc_vec[k] = SV[k];
     }
+#ifdef VP_HEAP_SVCVEC
+    /* the teardown harness lets the module free its own table */
+    {
+        struct iauth_xquery_service **hv = malloc(4 * sizeof(*hv));
+        VP_ASSUME(hv != NULL);
+        for (k = 0; k < 4; k++) hv[k] = k < NSVC ? SV[k] : NULL;
+        iauth_xquery_services.vec = hv;
+    }
+#else
     iauth_xquery_services.vec = svc_vec;
+#endif
     iauth_xquery_services.used = NSVC;
     iauth_xquery_services.size = 4;
 
